@@ -425,7 +425,9 @@ impl VisitMut for SpawnInline {
             if let syn::Stmt::Expr(syn::Expr::MethodCall(m), _) = s {
                 if m.method == "spawn" && m.args.len() == 1 {
                     if let Some(syn::Expr::Async(a)) = m.args.first() {
-                        let blk = a.block.clone();
+                        let mut blk = a.block.clone();
+                        // where the per-connection task begins (what runs before it runs in the spawning task)
+                        blk.stmts.insert(0, syn::parse_quote!(vx_task_begin();));
                         *s = syn::Stmt::Expr(
                             syn::Expr::Block(syn::ExprBlock {
                                 attrs: vec![],
